@@ -439,8 +439,8 @@ def _tasks(ctx):
         nrand = 4000
     else:
         ex = [(2, 2), (3, 4), (4, 4), (5, 3)]
-        samp5 = [(4, 150000)]
-        nrand = 120000
+        samp5 = [(4, 60000)]
+        nrand = 60000
     tasks = []
     for n, kmax in ex:
         ne = len(admissible_edges(n))
@@ -479,6 +479,7 @@ def run(ctx):
     nproc = max(1, min(16, os.cpu_count() or 1))
     with mp.get_context("fork").Pool(nproc) as pool:
         results = pool.map(_work, alltasks, chunksize=1)
+    perkey = {}
     for (cases, counts, fails, counters), task in zip(results, alltasks):
         for desc, nontrivial in cases:
             ctx.case(desc, nontrivial=nontrivial)
@@ -487,8 +488,10 @@ def run(ctx):
             ctx.contract_evals[name] = ctx.contract_evals.get(name, 0) + n
         for name, n in counters.items():
             ctx.count(name, n)
-        for f in fails:
-            ctx.fail(f["function"], f["clause"], f["input"], f["expected"], f["observed"], f["key"], f["replay"])
+        for f in fails:  # at most 3 examples per kind, so that one frequent kind cannot crowd out the others
+            perkey[f["key"]] = perkey.get(f["key"], 0) + 1
+            if perkey[f["key"]] <= 3:
+                ctx.fail(f["function"], f["clause"], f["input"], f["expected"], f["observed"], f["key"], f["replay"])
     for n, kmax in ex:
         ctx.exhaustive_parts.append(
             f"all directed hypergraphs with node set 0..{n - 1} and <= {kmax} hyperedges out of the "
